@@ -4,8 +4,11 @@ package query
 //verif:pkg lib/query
 //verif:setup VerifC20Setup
 //verif:harness VerifC20Stable mode=bv tier=quick split=6
+//verif:harness VerifC20BlockedUpgrade mode=bv tier=quick
 
 import (
+	"time"
+
 	"github.com/mithrandie/csvq/lib/parser"
 	"github.com/mithrandie/csvq/lib/value"
 )
@@ -111,5 +114,46 @@ func VerifC20Stable() {
 	_ = proc.ReleaseResourcesWithErrors()
 	verifAssert("no control files remain", !verifFileExists(".t.csv.lock") && !verifFileExists(".t.csv.temp"))
 	verifObserve("gen", int64(gen))
+	verifReach("end")
+}
+
+// A transaction has read a table; another process holds the table for update, so this transaction's
+// first data-changing statement ends with a lock-wait timeout (the deadline fires at a retry chosen
+// by the engine).  That failed access must not cost the transaction its loaded data: after the other
+// process has committed and released the table, a plain read still returns what was first loaded;
+// only a data-changing access that succeeds reloads the file.
+func VerifC20BlockedUpgrade() {
+	verifFileWrite("t.csv", "id,v\n1,a\n")
+	tx := verifNewTx()
+	tx.Flags.Quiet = true
+	proc := NewProcessor(tx)
+	tx.WaitTimeout, tx.RetryDelay = 50*time.Millisecond, time.Millisecond
+	sub := verifChoice("first-read-through-subquery", 2) == 1
+	got, ok := verifC20Read(proc, sub)
+	verifAssert("first read", ok && got == "a")
+	// the other process: lock file present while it works
+	verifFileWrite(".t.csv.lock", "")
+	verifTimers(true)
+	_, err := proc.Execute(verifCtx(), verifC20Update)
+	verifTimers(false)
+	verifAssert("the update is refused while the table is held by another process", err != nil)
+	if err != nil {
+		_, fatal := err.(*FatalError)
+		verifAssert("with an ordinary error", !fatal)
+	}
+	// the other process commits and releases
+	verifFileWrite("t.csv", "id,v\n1,b\n")
+	verifFileRemove(".t.csv.lock")
+	got, ok = verifC20Read(proc, false)
+	verifAssert("read after the failed access", ok)
+	verifAssert("the failed access did not cost the transaction its loaded data", got == "a")
+	_, err = proc.Execute(verifCtx(), verifC20Update)
+	verifAssert("the update succeeds once the table is free", err == nil)
+	got, ok = verifC20Read(proc, false)
+	verifAssert("the first successful data-changing access reloads the file", ok && got == "b!")
+	_ = proc.AutoRollback()
+	_ = proc.ReleaseResourcesWithErrors()
+	verifAssert("no control files remain", verifFileList() == "t.csv")
+	verifObserveBool("end", true)
 	verifReach("end")
 }
